@@ -158,4 +158,14 @@ Police(b, supported, required) ==
   IF unknown # <<>> THEN [verdict |-> 420, unknown |-> unknown]
   ELSE IF \E r \in required : r \notin SeqToSet(ts) THEN [verdict |-> 400]
   ELSE [verdict |-> 0]
+
+-----------------------------------------------------------------------------
+(* Responses derived from a request (Message::builder_success / builder_error / bad_request /             *)
+(* unknown_attributes): same method and transaction id, class success or error; the error helpers add      *)
+(* SOFTWARE, ERROR-CODE (400 "Bad Request" / 420 "Unknown Attributes") and, for 420, UNKNOWN-ATTRIBUTES.    *)
+ResponseHeader(b, cls) == [class |-> cls, method |-> MethodOf(U16(b, 1)), tid |-> SubSeq(b, 9, 20)]
+ErrorResponse(b, code, unknown) ==
+  [hdr |-> ResponseHeader(b, "error"), code |-> code, unknown |-> unknown,
+   \* attribute types in order: SOFTWARE, ERROR-CODE[, UNKNOWN-ATTRIBUTES when the list is not empty]
+   types |-> <<SOFTWARE, ERRORCODE>> \o (IF unknown = <<>> THEN <<>> ELSE <<UNKNOWNATTRS>>)]
 =============================================================================
